@@ -170,6 +170,22 @@ theorem run_copy_eq_values (ops : List Op) : ∀ (s : Store) (buf : Bytes), AllO
       simp only [run, materialize]
       exact ih s _ h
 
+/-- the dictionary a history leaves -/
+def finalStore (alias : Bool) : Store → Bytes → List Op → Store
+  | s, _, [] => s
+  | s, buf, .call v :: ops => finalStore alias (s.getOrCreate alias buf v).1 buf ops
+  | s, buf, .write off bs :: ops => finalStore alias s (write buf off bs) ops
+
+theorem finalStore_allOwn (ops : List Op) : ∀ (s : Store) (buf : Bytes), AllOwn s.entries →
+    AllOwn (finalStore false s buf ops).entries := by
+  induction ops with
+  | nil => intro s _ h; exact h
+  | cons op ops ih =>
+    intro s buf h
+    cases op with
+    | call v => exact ih _ buf (getOrCreate_copy s h buf v).1
+    | write off bs => exact ih s _ h
+
 theorem allOwn_empty : AllOwn ({} : Store).entries := by intro e he; simp at he
 
 theorem toVS_empty : toVS {} = {} := rfl
